@@ -24,6 +24,15 @@ inductive OwnerPc where
   | gone         -- index appended to freelist; the connection never touches the operator again (except stale calls)
 deriving Repr, DecidableEq
 
+/-- what took the slot: a connection (`connection.init`: registered readable at once, writers under `lock(flushing)`, torn down by the
+close finalizer `stop(flushing); operator.Free(); netFD.Close()`), or a dial in progress (`newPollDesc`: registered writable,
+edge-triggered, by `pollDesc.WaitWrite`; detached by `onwrite` inside the dispatch, by the poller's `appendHup`, or by `WaitWrite`'s
+own `ctx.Done()` branch; freed by `connect`'s deferred `operator.Free()`; the descriptor closed afterwards by `socket()`) -/
+inductive Kind where
+  | conn
+  | dial
+deriving Repr, DecidableEq
+
 structure S where
   loc : Loc := .first
   st : Nat := 0                    -- FDOperator.state: 0 unused, 1 inuse, 2 do-done token taken
@@ -40,10 +49,20 @@ structure S where
   fdOpen : Bool := false           -- the CURRENT owner's descriptor (operator.FD) is open; earlier owners' descriptors are other kernel objects
   hupq : List Nat := []            -- hang-ups recorded through this slot (`appendHup`) that the hang-up goroutine has not delivered yet,
                                    -- each tagged with the owner it was recorded for (oldest first)
+  kind : Kind := .conn             -- ghost: what the current (or last) owner is
+  writer : Option Nat := none      -- a `Write`/`Flush` of the owner of that generation is IN FLIGHT: it has passed `IsActive()`, holds
+                                   -- `lock(flushing)` and will use `c.fd` (sendmsg) and `c.operator` (Control) without looking at the close state again
+  stopped : Bool := false          -- the close finalizer of the current owner is past `c.stop(flushing)` (no writer can take the lock any more)
 deriving Repr, DecidableEq
 
 inductive Act where
   | alloc                 -- operatorCache.alloc + initFDOperator: a NEW connection takes the slot
+  | allocDial             -- newPollDesc (netFD.connect): a DIAL takes the slot (OnWrite / OnHup of its pollDesc installed)
+  | wLock                 -- Write / Flush of the current owner: `IsActive()` was true, `lock(flushing)` succeeded
+  | wUse                  -- the writer in flight acts: `sendmsg(c.fd, …)`, `c.operator.Control(PollR2RW | PollRW2R)`
+  | wUnlock               -- the writer leaves: `unlock(flushing)`
+  | stopFlush             -- close finalizer: `c.stop(flushing)` (spins while a writer holds the lock)
+  | unusedEarly           -- (witness only) a finalizer that calls `operator.Free()` WITHOUT having waited for the flusher
   | register              -- Control(PollReadable): inuse(); epoll ADD
   | fetch                 -- EpollWait returns an event for this slot (only while registered: A-epoll-del)
   | fetchOther            -- EpollWait returns a batch without this slot
@@ -69,7 +88,27 @@ deriving Repr, DecidableEq
 
 def step (s : S) : Act → Option S
   | .alloc =>
-    if s.loc = .first then some { s with loc := .owned, gen := s.gen + 1, pc := .allocated, cbGen := some (s.gen + 1), fdOpen := true } else none
+    if s.loc = .first then some { s with loc := .owned, gen := s.gen + 1, pc := .allocated, cbGen := some (s.gen + 1), fdOpen := true,
+                                         kind := .conn, stopped := false } else none
+  | .allocDial =>
+    if s.loc = .first then some { s with loc := .owned, gen := s.gen + 1, pc := .allocated, cbGen := some (s.gen + 1), fdOpen := true,
+                                         kind := .dial, stopped := false } else none
+  | .wLock =>
+    -- `IsActive()` was true when evaluated (the owner's Close may have detached since); CAS(0,1) on keychain[flushing] fails once stopped
+    if s.loc = .owned ∧ s.kind = .conn ∧ (s.pc = .live ∨ s.pc = .detached) ∧ s.writer = none ∧ ¬ s.stopped then
+      some { s with writer := some s.gen } else none
+  | .wUse =>
+    match s.writer with
+    | none => none
+    | some g =>
+      -- whatever the slot and the descriptor NUMBER belong to now is what the writer acts on
+      some { s with bad := s.bad || (g != s.gen) || !s.fdOpen || !(decide (s.pc = .live) || decide (s.pc = .detached)) }
+  | .wUnlock =>
+    if s.writer.isSome then some { s with writer := none } else none
+  | .stopFlush =>
+    if s.loc = .owned ∧ s.kind = .conn ∧ s.pc = .detached ∧ s.writer = none ∧ ¬ s.stopped then some { s with stopped := true } else none
+  | .unusedEarly =>
+    if s.loc = .owned ∧ s.pc = .detached ∧ s.st = 1 then some { s with pc := .unusedDone, st := 0 } else none
   | .register =>
     -- inuse(): CAS(0,1) (spins otherwise; state is 0 here)
     if s.loc = .owned ∧ s.pc = .allocated ∧ s.st = 0 then some { s with pc := .live, st := 1, registered := true } else none
@@ -95,8 +134,9 @@ def step (s : S) : Act → Option S
   | .detach =>
     if s.loc = .owned ∧ s.pc = .live then some { s with pc := .detached, registered := false } else none
   | .unused =>
-    -- CAS(1,0) succeeds only while nobody holds the token
-    if s.loc = .owned ∧ s.pc = .detached ∧ s.st = 1 then some { s with pc := .unusedDone, st := 0 } else none
+    -- CAS(1,0) succeeds only while nobody holds the token.  A connection's finalizer gets here only after `stop(flushing)`;
+    -- a dial (`connect`'s deferred Free) has no writers
+    if s.loc = .owned ∧ s.pc = .detached ∧ s.st = 1 ∧ (s.kind = .dial ∨ s.stopped) then some { s with pc := .unusedDone, st := 0 } else none
   | .reset =>
     if s.loc = .owned ∧ s.pc = .unusedDone then some { s with pc := .resetDone, cbGen := none } else none
   | .freeable =>
@@ -117,7 +157,7 @@ def step (s : S) : Act → Option S
   | .liveDone =>
     if s.ownerHolds then some { s with st := 1, ownerHolds := false } else none
   | .closeFd g =>
-    -- initFinalizer: `c.operator.Free(); c.netFD.Close()` – the descriptor number goes back to the kernel only after
+    -- initFinalizer: `c.stop(flushing); c.operator.Free(); c.netFD.Close()` (dial: deferred `Free()` in connect, then `netfd.Close()` in socket) – the descriptor number goes back to the kernel only after
     -- `Free` (the barrier `unused()`, reset, freeable) has returned.  A finalizer of an earlier owner closes ITS descriptor.
     if g = s.gen ∧ s.pc = .gone ∧ s.fdOpen then some { s with fdOpen := false }
     else if g < s.gen then some s
@@ -139,10 +179,12 @@ def run (s : S) : List Act → Option S
   | [] => some s
   | a :: rest => match step s a with | none => none | some s' => run s' rest
 
-/-- the code as it is: every stale Release goes through the IsActive guard (fix 1c26766), the hang-up queue holds the copied funcs -/
+/-- the code as it is: every stale Release goes through the IsActive guard (fix 1c26766), the hang-up queue holds the copied funcs,
+the finalizer waits for the flusher before it frees the operator -/
 def guardedAct : Act → Bool
   | .staleRelease _ g => g
   | .runHup _ late => !late
+  | .unusedEarly => false
   | _ => true
 
 end Netpoll.Poll.OpCache
